@@ -52,6 +52,9 @@ def leaf_prog(leaf, q):
         "orderalias": [["from", U], ["select", [k(["arith", "+", ux, ["raw", 1]])]], ["orderby", [k(["arith", "+", ux, ["raw", 1]])], "desc"]],
         "setop_orderalias": [["from", U], ["select", [k(ux)]], ["union", {"calls": [["from", ["t", "v"]], ["select", [["f", "v", "x"]]]], "q": q}],
                              ["orderby", [k(ux)], "asc"]],
+        "ident_backtick": [["from", ["t", "u`v"]], ["select", [k(["f", "u`v", "c`d"])]], ["where", ["cmp", ">", ["f", "u`v", "e``f"], ["raw", 1]]]],
+        "interval_reflected": [["from", U], ["select", [k(["arith", "+", ["interval", {"days": 1, "hours": 2}], ux]), ["arith", "-", ["interval", {"hours": 36}], uy]]]],
+        "groupalias_other": [["from", U], ["select", [k(["arith", "+", ux, ["raw", 1]])]], ["groupby", [k(uy)]]],
         "groupalias": [["from", U], ["select", [k(["arith", "+", ux, ["raw", 1]])]], ["groupby", [k(["arith", "+", ux, ["raw", 1]])]]],
         "limit": [["from", U], ["select", [k(ux)]], ["orderby", [ux], "asc"], ["limit", 3], ["offset", 1]],
     }[leaf]
@@ -77,8 +80,8 @@ def embed(construct, inner, q, level):
     return {"calls": c, "q": q}
 
 
-NEUTRAL = {"ident", "value", "value2", "backslash", "inlist5", "json_esc", "json", "jsondict", "jsondict_set", "orderalias", "setop_orderalias"}
-LEAVES = ["ident", "value", "value2", "backslash", "inlist5", "bool", "bool_crit", "array", "interval", "interval_kw", "json", "json_esc", "jsondict", "jsondict_set", "groupalias", "orderalias",
+NEUTRAL = {"ident", "ident_backtick", "value", "value2", "backslash", "inlist5", "json_esc", "json", "jsondict", "jsondict_set", "orderalias", "setop_orderalias"}
+LEAVES = ["ident", "ident_backtick", "interval_reflected", "groupalias_other", "value", "value2", "backslash", "inlist5", "bool", "bool_crit", "array", "interval", "interval_kw", "json", "json_esc", "jsondict", "jsondict_set", "groupalias", "orderalias",
           "setop_orderalias", "limit"]
 
 
@@ -199,6 +202,12 @@ def conformance(toks, d, leaf, inner_cls, sql):
             bare_alias = nxt is not None and nxt.kind == "ID" and nxt.value == "k" and not (after is not None and after.kind == "OP" and after.text in ("+", "."))
             if d in ("mssql", "oracle") and bare_alias:
                 bad.append(("groupby-alias", "GROUP BY alias in a dialect that forbids it"))
+        if leaf == "groupalias_other" and d in ("mssql", "oracle") and t.kind == "WORD" and t.value == "GROUP":
+            # the GROUP BY term carries the alias of a select item: where the alias may not be written, the select item's
+            # expression stands for it ("x"+1), not the term that merely carries the same alias ("y")
+            tail = [x.value for x in toks[i + 2:i + 6] if x.kind == "ID"]
+            if "x" not in tail or "y" in tail:
+                bad.append(("groupby-alias", "GROUP BY does not use the select expression the alias stands for"))
         if inner_cls == "same" and t.kind == "WORD" and t.value in ("UNION", "INTERSECT", "EXCEPT", "MINUS"):
             j = i + 1
             if j < len(toks) and toks[j].kind == "WORD" and toks[j].value == "ALL":
